@@ -512,15 +512,16 @@ pub fn run() {
                                 if pop_s == "other" {
                                     return Err(std::io::Error::new(std::io::ErrorKind::Other, "populate: other"));
                                 }
-                                let mut it = pop_s.splitn(3, ':');
-                                let _ = it.next();
-                                let content = it.next().unwrap_or("empty");
-                                let chunks: usize = it.next().map(|s| s.parse().unwrap()).unwrap_or(1);
-                                // content tokens of the rep: form contain ':' — re-join
                                 let (content, chunks) = if pop_s.starts_with("val:rep:") {
                                     let parts: Vec<&str> = pop_s.split(':').collect();
                                     (format!("rep:{}:{}", parts[2], parts[3]), parts.get(4).map(|s| s.parse().unwrap()).unwrap_or(1))
-                                } else { (content.to_string(), chunks) };
+                                } else {
+                                    let mut it = pop_s.splitn(3, ':');
+                                    let _ = it.next();
+                                    let content = it.next().unwrap_or("empty").to_string();
+                                    let chunks: usize = it.next().map(|s| s.parse().unwrap()).unwrap_or(1);
+                                    (content, chunks)
+                                };
                                 write_chunks(dst, &expand(&content), chunks)
                             };
                             let r = if kind == "ensure" {
